@@ -369,6 +369,8 @@ fn last_receiver_gone<M: RawMutex + 'static, A: RingBuf<Item = Tagged> + 'static
 }
 
 fn step<M: RawMutex + 'static, A: RingBuf<Item = Tagged> + 'static>(c: &mut Ctx<'_, M, A>, op: &Op, run: &mut Run) {
+    let op = &recycle(op, &c.send, &[OP_MK_SEND], OP_POLL_SEND, OP_DROP_SEND);
+    let op = &recycle(op, &c.recv, &[OP_MK_RECV], OP_POLL_RECV, OP_DROP_RECV);
     tls::clear_op_log();
     tls::alloc_reset();
     let owners_before = c.owners();
